@@ -497,4 +497,12 @@ def r02_7(ctx):
     return o
 
 
-RULES = [r02_1, r02_2, r02_3, r02_3b, r02_4, r02_5, r02_6, r02_7]
+def r02_8(ctx):
+    from rules import C17
+    o = C17.r17_3(ctx)
+    o.rule = "R02.8"
+    o.text = ("the boxes used as quick rejects enclose what they stand for: the box of a segment / closed curve / shape contains every point of it, interior extrema of curved pieces included (same analysis as R17.3)")
+    return o
+
+
+RULES = [r02_1, r02_2, r02_3, r02_3b, r02_4, r02_5, r02_6, r02_7, r02_8]
